@@ -4,7 +4,9 @@ correspondence: the library's RAW eigenpairs are captured by wrapping scipy.lina
                 scipy.sparse.linalg.eigsh/eigs inside the harness process (the module looks them up through the scipy
                 module objects at call time); they are sent, as exact rationals, to the Lean model of the pyMOTO-authored
                 post-processing (`LA/Eigen.lean`: dispatch, what is handed to ARPACK, sorting, sign, B-normalisation;
-                `_dense_sens`, `_sparse_eigval_sens`) and the module's outputs / sensitivities are compared (tolerance).
+                `_dense_sens`, `_sparse_eigval_sens`, `_sparse_eigvec_sens` with exact per-mode adjoint solves, also with a
+                kernel component added to the solver's answer) and the module's outputs / sensitivities are compared
+                (tolerance).
 oracle/search : on the real outputs: residual |A q - lambda B q|, q^T B q = 1, ordering by the sorting function,
                 non-negative mean for real symmetric problems, dense path returns n pairs, sparse path returns the
                 requested number closest to the shift (against a dense reference), OPinv = (A - sigma B)^-1.
@@ -23,7 +25,9 @@ from .c07 import enc, dec, dense, _Stub, model_balanced
 RULE = ("streams: dense (n 2..6; real/complex x Hermitian/general x standard/generalised x 4 sorting functions; response + "
         "Lee's dense sensitivities with eigenvalue/eigenvector/both/partial seeds), sparse (random Hermitian / general "
         "pencils n 8..14 and FE stiffness/mass pencils with boundary conditions; nmodes 1..4, sigma None/0/inside the "
-        "spectrum; response, ARPACK arguments, shift operator, eigenvalue sensitivities), flags. distinct = distinct case "
+        "spectrum; response, ARPACK arguments, shift operator, eigenvalue sensitivities; real symmetric pencils: eigenvector "
+        "sensitivities, 3 seeded passes per response incl. all-zero seed columns and dW given/None, model solver with and "
+        "without an added kernel component), flags. distinct = distinct case "
         "names; every case compares the module outputs with the model applied to the captured raw library pairs and "
         "runs the property oracle on the real outputs")
 ASSUMPTIONS = [
@@ -39,6 +43,9 @@ ASSUMPTIONS = [
     "sparse sensitivities (eigenvalue and eigenvector seeds) are compared for real symmetric pencils only (complex Hermitian is "
     "the open C01 finding eigensolve-sparse-complex-hermitian-sens); a 'Factor is exactly singular' error of the LU of the "
     "singular shifted matrix in _sparse_eigvec_sens is counted as a boundary skip",
+    "oracle for the sparse eigenvector sensitivities: the adjoint identity of theorem eig_sparse_eigvec_adjoint_sum on the REAL "
+    "outputs, with the tangent (dq, dlam) of each computed pair obtained from the bordered linear system (numpy solve) for one "
+    "symmetric and one NON-symmetric random direction (dA, dB); tolerance = the gap-dependent vectol of the comparison",
 ]
 
 
@@ -530,6 +537,55 @@ def oracle(c, out):
         r = np.abs(sh @ OV - V).max() / max(1.0, np.abs(V).max())
         if not r <= 1e-7 * max(1.0, np.linalg.cond(sh)):
             return f"OPinv is not (A - sigma B)^-1: residual {r:.3e}"
+    if out.get("vecpasses") and boundary(c, out) is None:
+        for ps, vp in enumerate(out["vecpasses"]):
+            if vp is not None:
+                why = vec_identity_oracle(c, out, ps)
+                if why:
+                    return why
+    return None
+
+
+def tangent(A, Bm, lam, qv, dA, dB):
+    """the first-order perturbation (dq, dlam) of a simple normalised eigenpair of a symmetric pencil under (dA, dB):
+    (dA - lam dB - dlam B) q + (A - lam B) dq = 0,  dq^T B q + q^T dB q + q^T B dq = 0   (theorem eig_tangent_exists_unique)"""
+    n = A.shape[0]
+    K = np.zeros((n + 1, n + 1))
+    K[:n, :n] = A - lam * Bm
+    K[:n, n] = -(Bm @ qv)
+    K[n, :n] = (Bm + Bm.T) @ qv
+    rhs = np.concatenate([-(dA - lam * dB) @ qv, [-(qv @ (dB @ qv))]])
+    sol = np.linalg.solve(K, rhs)
+    return sol[:n], sol[n]
+
+
+def vec_identity_oracle(c, out, ps):
+    """the property of the sparse eigenvector sensitivities ON THE REAL CODE (theorem eig_sparse_eigvec_adjoint_sum): for random
+    directions (dA, dB) - symmetric and NOT symmetric - sum_i (dQ[:, i] . dq_i + dW[i] dlam_i) = <gA, dA> + <gB, dB>"""
+    dWp, dQp, sens = out["vecpasses"][ps]
+    Bm = np.eye(c.n) if c.B is None else c.B
+    W, Q = np.real(out["W"]), np.real(out["Q"])
+    gA = np.real(np.asarray(dense(sens[0])))
+    gB = np.real(np.asarray(dense(sens[1]))) if c.B is not None else None
+    if gA.size == 0:
+        gA = np.zeros((c.n, c.n))
+    if gB is not None and gB.size == 0:
+        gB = np.zeros((c.n, c.n))
+    rng = np.random.default_rng(c.spec["seed"] + 23 + ps)
+    for sym in (True, False):
+        dA = rng.standard_normal((c.n, c.n))
+        dB = rng.standard_normal((c.n, c.n)) * 0.3 if c.B is not None else np.zeros((c.n, c.n))
+        if sym:
+            dA, dB = (dA + dA.T) / 2, (dB + dB.T) / 2
+        lhs = 0.0
+        for i in range(W.size):
+            dq, dl = tangent(c.A, Bm, W[i], Q[:, i], dA, dB)
+            lhs += float(dQp[:, i] @ dq) + (0.0 if dWp is None else float(dWp[i] * dl))
+        rhs = float(np.sum(gA * dA)) + (float(np.sum(gB * dB)) if gB is not None else 0.0)
+        tol = c.vectol * c.n * max(1.0, float(np.abs(gA).max()), abs(lhs)) * 10
+        if not abs(lhs - rhs) <= tol:
+            return (f"sparse eigenvector sensitivities, pass {ps}, {'symmetric' if sym else 'non-symmetric'} direction: "
+                    f"sum seeds.tangent = {lhs!r} but <gA,dA>+<gB,dB> = {rhs!r} (tol {tol:.2e})")
     return None
 
 
@@ -570,10 +626,16 @@ def reqs_for(c, out):
         if vp is None:
             continue
         dWp, dQp, _ = vp
-        r.append((f"eigvecsens{ps}", {"m": "c11.eigvecsens", "n": c.n, "nm": int(out["W"].size), "A": enc(c.A),
-                                      "B": None if c.B is None else enc(c.B), "W": enc_vec(out["W"]), "Q": enc(out["Q"]),
-                                      "dW": None if dWp is None else enc_vec(dWp), "dQ": enc(dQp),
-                                      "Areal": bool(np.isrealobj(c.A)), "Breal": bool(c.B is None or np.isrealobj(c.B))}))
+        rq = {"m": "c11.eigvecsens", "n": c.n, "nm": int(out["W"].size), "A": enc(c.A),
+              "B": None if c.B is None else enc(c.B), "W": enc_vec(out["W"]), "Q": enc(out["Q"]),
+              "dW": None if dWp is None else enc_vec(dWp), "dQ": enc(dQp),
+              "Areal": bool(np.isrealobj(c.A)), "Breal": bool(c.B is None or np.isrealobj(c.B))}
+        r.append((f"eigvecsens{ps}", rq))
+        if ps == 0:
+            # ANOTHER solution of the singular adjoint system (a multiple of the eigenvector added to what the model's inner
+            # solver returns): the dyads must not change (theorem eig_sparse_eigvec_solver_indep)
+            kr = np.random.default_rng(c.spec["seed"] + 17)
+            r.append((f"eigvecsensK{ps}", dict(rq, kick=enc_vec(kr.uniform(-3.0, 3.0, out["W"].size)))))
     return r
 
 
@@ -612,7 +674,8 @@ def compare(ctx, c, out, kind, mres):
         ctx.compare_exact(c.stream, case, impl, [[r["lib"], bool(r["newAinv"])] for r in mo], key=(c.name, kind))
         return
     if kind.startswith("eigvecsens"):
-        _, _, sens = out["vecpasses"][int(kind[len("eigvecsens"):])]
+        ps_ = int(kind[len("eigvecsens"):].lstrip("K"))
+        _, _, sens = out["vecpasses"][ps_]
         _cmp(ctx, c, kind + ".dA", sens[0], dec(mo["dA"]), c.vectol)
         if c.B is not None:
             _cmp(ctx, c, kind + ".dB", sens[1], dec(mo["dB"]), c.vectol)
@@ -791,6 +854,7 @@ def run_specs(ctx, speclist):
             ctx.skipped_boundary += sum(1 for v in out.get("vecpasses", []) if v is None)
             if out.get("vecpasses"):
                 ctx.branch("sparse.eigvec_passes", len([v for v in out["vecpasses"] if v is not None]))
+                ctx.branch("oracle.eigvec_adjoint_identity", len([v for v in out["vecpasses"] if v is not None]))
             ctx.branch(f"{c.stream}.{'fe' if c.fe else 'rand'}.{'c' if c.cplx else 'r'}.{'herm' if c.herm else 'gen'}.{'gen' if c.gen else 'std'}")
             ctx.branch(f"lib.{out['calls'][0]['lib']}")
             ctx.branch(f"sorter.{c.sorter}")
